@@ -331,10 +331,13 @@ class Independence(Contract):
     uses = LOWER
     props = {'*': ['C20']}
 
+    FMTS = [[True, 8, 2]]
+
     def configs(self, tier):
-        for route in ('deepcopy', 'ctor_like', 'ctor_template', 'ctor_config', 'ctor_from_fxp', 'fxp_like_fn'):
-            for shape in ([], [2]):
-                yield dict(route=route, shape=shape, fmt=[True, 8, 2])
+        for fmt in self.FMTS:
+            for route in ('deepcopy', 'ctor_like', 'ctor_template', 'ctor_config', 'ctor_from_fxp', 'fxp_like_fn'):
+                for shape in ([], [2]):
+                    yield dict(route=route, shape=shape, fmt=list(fmt))
 
     def inputs(self, cfg, D):
         s, n, f = cfg['fmt']
@@ -387,6 +390,20 @@ class Independence(Contract):
         if obs['exc']:
             return {}
         return {'separate': obs['separate'], 'source_unaffected': obs['source_unaffected'], 'derived_unaffected': obs['derived_unaffected']}
+
+
+@contract
+class IndependenceWide(Independence):
+    """The same separation for extended-precision objects (object-dtype code buffers): a flag raised, or an overflow
+    mode changed, on a derived 64+ bit object must not leak into its source (C18: flags of wide words are exact)."""
+    name = 'objects:Fxp.derivation-independence[wide]'
+    props = {'*': ['C18', 'C20']}
+    FMTS = [[True, 70, 2], [False, 64, 0]]
+
+    def configs(self, tier):
+        for c in Independence.configs(self, tier):
+            if c['route'] != 'ctor_from_fxp':       # Fxp(wide_fxp) with symbolic codes: the solver does not come back (size inference over 70-bit terms)
+                yield c
 
 
 @contract
